@@ -61,6 +61,10 @@ def _uni(prop, tier):
                         continue
                     nm = f"{tag}/{op}/" + ",".join(f"{k}={'+'.join(v) if isinstance(v, tuple) else v}" for k, v in extra.items())
                     out.append(Scenario(nm, nv.nv_step, params=dict(base, op=op, **extra), entry=(f"UniLpMarket.{op}", "Broker.get_account_status"), canary=_canary(prop) if (op, t0q, aq, extra.get("add_range")) == ("add", True, "same", "inside") and not extra["positions"] else None, **kw))
+                if t0q and aq == "same" and t == ticks[0]:
+                    # another pool (other decimals, fee tier, token order) has been used in the same process before
+                    for op, extra in (("add", dict(positions=(), add_range="inside")), ("remove", dict(positions=("inside",))), ("collect", dict(positions=("inside",)))):
+                        out.append(Scenario(f"{tag}/{op}/another_pool_in_the_process", nv.nv_step, params=dict(base, op=op, neighbour_market=True, **extra), entry=(f"UniLpMarket.{op}", "Broker.get_account_status"), **kw))
                 if prop == "C04" and aq == "same":
                     for op in ("add_misaligned_ticks", "add_inverted_range", "swap_same_token", "swap_foreign_token"):
                         out.append(Scenario(f"{tag}/{op}", nv.nv_step, params=dict(base, op=op, positions=("inside",)), entry=("UniLpMarket",), expect_outcomes=("rejected",), **kw))
@@ -108,6 +112,9 @@ def _deribit(prop, tier):
     for op, extra in cases:
         nm = f"deribit/{op}" + "".join(f"/{k}={v}" for k, v in extra.items())
         out.append(Scenario(nm, nv.nv_step, params=dict(dict(prop=prop, market="deribit", op=op, hold2=True), **extra), entry=(f"DeribitOptionMarket.{op}", "Broker.get_account_status"), canary=_canary(prop) if nm == "deribit/deposit" else None, **kw))
+    # another option market (BTC) has been used in the same process before
+    for op in ("buy", "sell"):
+        out.append(Scenario(f"deribit/{op}/another_option_market_in_the_process", nv.nv_step, params=dict(prop=prop, market="deribit", op=op, hold2=True, neighbour_market=True), entry=(f"DeribitOptionMarket.{op}", "Broker.get_account_status"), **kw))
     chains = [("buy", "sell"), ("sell", "sell"), ("deposit", "withdraw"), ("buy", "buy")]
     for op, op2 in chains:
         if tier == "quick" and (op, op2) not in (("buy", "sell"), ("sell", "sell")):
@@ -134,6 +141,9 @@ def _gmx(prop, tier):
     # the same market object has served an earlier bar with other weights / supply / pool composition (every fee figure looked up there)
     for op in ("buy_glp", "sell_glp"):
         out.append(Scenario(f"gmx1/near_below/weth/{op}/after_another_bar", nv.nv_step, params=dict(prop=prop, market="gmx1", shape="near_below", token="weth", op=op, prior_bar=True), entry=(f"GmxMarket.{op}", "GmxMarket.set_market_status", "Broker.get_account_status"), **kw1))
+    # another GLP market (other tokens, weights, decimals) has been used in the same process before
+    for op in ("buy_glp", "sell_glp"):
+        out.append(Scenario(f"gmx1/near_below/usdc/{op}/another_glp_market_in_the_process", nv.nv_step, params=dict(prop=prop, market="gmx1", shape="near_below", token="usdc", op=op, neighbour_market=True), entry=(f"GmxMarket.{op}", "Broker.get_account_status"), **kw1))
     kw2 = dict(shadows=V2_SHADOWS, max_paths=600, float_model=True)
     shapes2 = list(V2_ROWS) if tier != "quick" else list(V2_ROWS)[:3]
     for sh in shapes2:
@@ -141,6 +151,9 @@ def _gmx(prop, tier):
             out.append(Scenario(f"gmx2/{sh}/valuation", nv.nv_step, params=dict(prop=prop, market="gmx2", shape=sh, op=None), entry=("Broker.get_account_status", "GmxV2Market.get_market_balance"), **kw2))
         for side in ("long", "short", "both"):
             out.append(Scenario(f"gmx2/{sh}/deposit/{side}", nv.nv_step, params=dict(prop=prop, market="gmx2", shape=sh, op="deposit", side=side), entry=("GmxV2Market.deposit", "Broker.get_account_status"), canary=_canary(prop) if (sh, side) == (shapes2[0], "both") else None, **kw2))
+        if sh == shapes2[0]:
+            for op, extra in (("deposit", dict(side="both")), ("withdraw", {})):
+                out.append(Scenario(f"gmx2/{sh}/{op}/another_gm_market_in_the_process", nv.nv_step, params=dict(dict(prop=prop, market="gmx2", shape=sh, op=op, neighbour_market=True), **extra), entry=(f"GmxV2Market.{op}", "Broker.get_account_status"), **kw2))
         out.append(Scenario(f"gmx2/{sh}/withdraw", nv.nv_step, params=dict(prop=prop, market="gmx2", shape=sh, op="withdraw"), entry=("GmxV2Market.withdraw", "Broker.get_account_status"), **kw2))
         if tier != "quick":
             out.append(Scenario(f"gmx2/{sh}/deposit+withdraw", nv.nv_step, params=dict(prop=prop, market="gmx2", shape=sh, op="deposit", op2="withdraw", side="both"), entry=("GmxV2Market.deposit", "GmxV2Market.withdraw"), **kw2))
